@@ -478,6 +478,28 @@ func checkC14Cfg(raw json.RawMessage) (ev.Result, error) {
 			c.Path, len(got), len(want), firstDiff(got, want), clip(string(text), 1500))
 	}
 	res := ev.Result{Classes: []string{"cfg:" + c.Path}}
+	if c.Path == "json-marshal" {
+		// Beyond the letter of the statement (which names the configuration path): where encoding/json can read a
+		// marshalled condition list back at all, it has to give the same conditions - operands are 64-bit integers, and a
+		// decoder that goes through floating point loses the low bits of large ones.
+		for _, g := range lit.Syscalls {
+			for _, nc := range g.NamesWithCondtions {
+				b, err := json.Marshal(nc.Conditions)
+				if err != nil {
+					continue
+				}
+				var back seccomp.ArgumentConditions
+				if err := json.Unmarshal(b, &back); err != nil {
+					res.Classes = append(res.Classes, "encoding/json-cannot-read-conditions-back(no-claim)")
+					continue
+				}
+				if !reflect.DeepEqual(back, nc.Conditions) {
+					return ev.Result{}, fmt.Errorf("conditions marshalled to JSON (%s) and read back with encoding/json are %+v, were %+v", clip(string(b), 400), back, nc.Conditions)
+				}
+				res.Classes = append(res.Classes, "conditions-through-encoding/json")
+			}
+		}
+	}
 	for _, g := range p.Groups {
 		res.Classes = append(res.Classes, "cfg-action:"+oracle.ActionName(g.Action))
 		for _, ce := range g.Conds {
